@@ -67,6 +67,12 @@ def main(pid, tier, seed):
     t0 = time.time()
     rng = random.Random(seed)
     verdict = core.Verdict(pid)
+    # abstract composition scorer o guesser (Scorer.tla): must hold with the open finding excluded and fail without it
+    mod = os.path.join(core.SPEC, 'Scorer.tla')
+    r1 = core.tlc_must_pass(mod, os.path.join(core.SPEC, 'MC_Scorer.cfg'), 'Scorer composition', timeout=600)
+    r2 = core.tlc(mod, os.path.join(core.SPEC, 'MC_Scorer_open.cfg'), timeout=600)
+    mc = {'cfg': 'MC_Scorer.cfg', 'states': r1.distinct, 'transitions': r1.generated,
+          'open_finding_in_model': {'cfg': 'MC_Scorer_open.cfg', 'violated': r2.violated}}
     traces, meta = [], {}
     tid = 0
     n_lists = 8 if tier == 'quick' else 80
@@ -153,7 +159,7 @@ def main(pid, tier, seed):
                    'guesser language table; non-trivial = non-zero score; candidates = training passwords, guesser output, one-edit '
                    'perturbations, unrelated strings, e-mail / website strings',
            'samples': [{'passwords': meta[s['tid']].get('passwords'), 'candidates': meta[s['tid']].get('cand_list', [])[:12]}],
-           'trainings': len(traces), 'trace_validation': st, 'exhaustive': False,
+           'trainings': len(traces), 'trace_validation': st, 'model_checking': mc, 'states': mc['states'], 'transitions': mc['transitions'], 'exhaustive': False,
            'known_findings_reproduced': n_known, 'violation_histogram': verdict.histogram()}
     core.write_evidence(pid, tier, seed, 'exploration', cov, time.time() - t0, violations=n_viol,
                         assumptions=['TLC compares ranks; floats clustered within relative 1e-9', 'e-mail / website detection recomputed with the detectors',
